@@ -346,7 +346,7 @@ def pmap(fn, tasks, chunk=None):
     return out
 
 
-def run(cfg, world_seeds, deadline=None, max_states=None, log=print):
+def run(cfg, world_seeds, deadline=None, max_states=None, log=print, collect_states=False):
     """Level-synchronous BFS.  world_seeds: list of (world name, seed (name|dict))."""
     t_start = time.time()
     seen = {}
@@ -361,6 +361,10 @@ def run(cfg, world_seeds, deadline=None, max_states=None, log=print):
     capped = None
     tainted_states = 0
     per_level = []
+    state_list = {}
+    if collect_states:
+        for i, item in enumerate(frontier):
+            state_list[("seed", i)] = item
     for depth in range(cfg.depth + 1):
         last = depth == cfg.depth
         if last:
@@ -371,7 +375,7 @@ def run(cfg, world_seeds, deadline=None, max_states=None, log=print):
         if max_states and len(frontier) > max_states:
             capped = f"level {depth} has {len(frontier)} states > cap {max_states}"
             break
-        want_succ = depth + 1 < cfg.depth
+        want_succ = depth + 1 < cfg.depth or collect_states
         tasks = [(cfg, wn, sj, hj, want_succ) for (wn, sj, hj) in frontier]
         results = pmap(expand, tasks)
         new_frontier = []
@@ -392,6 +396,8 @@ def run(cfg, world_seeds, deadline=None, max_states=None, log=print):
                 seen[k] = depth + 1
                 if evj is not None:
                     new_frontier.append((wn, sj, hj + [evj]))
+                    if collect_states:
+                        state_list[k] = (wn, sj, hj + [evj])
         per_level.append({"depth": depth, "expanded": len(frontier), "new_states": len(new_frontier) if want_succ else None})
         log(f"  level {depth}: expanded {len(frontier)} states, {total['transitions']} transitions so far, "
             f"{len(seen)} distinct states, {len(violations)} raw violations, {time.time() - t_start:.1f}s")
@@ -402,4 +408,5 @@ def run(cfg, world_seeds, deadline=None, max_states=None, log=print):
         "tags": sorted(tags), "violations": violations, "samples": samples,
         "completed_depth": completed_depth, "capped": capped, "tainted_states": tainted_states,
         "per_level": per_level, "wall_s": time.time() - t_start,
+        "state_list": list(state_list.values()),
     }
